@@ -234,12 +234,12 @@ def specs(tier):
              unwind=5, timeout=600,
              desc="real commit-loop wait predicate on a real Scheduler || real cancel() || publish_finality+notify",
              bounds={"threads": 3, "wait_rounds": 3}),
-        Spec("h4_finality_commit_n2", build_h4(2), cfg=h4_cfg(2, False), unwind=6, timeout=900,
-             desc="real run_finality_loop || real run_commit_loop (ghost commit) over 2 validated transactions: every publication the "
-                  "commit coordinator needs is followed by a notification; parks have no timeout",
-             bounds={"n": 2, "threads": 2, "memory_model": "SC"}),
     ]
-    if tier == "thorough":
+    if tier == "experimental":
+        out.append(Spec("h4_finality_commit_n2", build_h4(2), cfg=h4_cfg(2, False), unwind=6, timeout=14000,
+                        desc="real run_finality_loop || real run_commit_loop (ghost commit, ghost candidate lock) over 2 validated transactions: "
+                             "every publication the commit coordinator needs is followed by a notification; parks have no timeout",
+                        bounds={"n": 2, "threads": 2, "memory_model": "SC"}))
         out.append(Spec("h4_finality_commit_n3", build_h4(3), cfg=h4_cfg(3, False), unwind=7, timeout=7200,
                         desc="as h4 with 3 transactions", bounds={"n": 3, "threads": 2}))
         out.append(Spec("h5_validate_finality_commit_n2", build_h4(2, True), cfg=h4_cfg(2, True), unwind=6, timeout=7200,
